@@ -266,20 +266,30 @@ def converters() -> list[tuple[str, Any]]:
     return [(a.name, a.converter) for a in attrs.fields(HelicityModel) if a.converter is not None]
 
 
-def _is_sorted_rebuild(func) -> tuple[bool, str]:
-    """Shape of the real source: `return OrderedDict([(k, m[k]) for k in sorted(m, key=...)])` with m the only parameter."""
+def _is_sorted_rebuild(func, depth: int = 0) -> tuple[bool, str]:
+    """Shape of the real source: the result is `OrderedDict([(k, m[k]) for k in KEYS])` with m the mapping parameter and KEYS either
+    `sorted(m, key=...)` itself or a local that every assignment binds to `sorted(m, key=...)` (branches allowed); a converter that only
+    forwards its parameter to such a helper of the package (`return helper(m, ...)`) is followed (two levels)."""
     try:
         tree = ast.parse(textwrap.dedent(inspect.getsource(func))).body[0]
     except Exception as e:  # noqa: BLE001
         return False, f"no source: {e}"
-    if not isinstance(tree, ast.FunctionDef) or len(tree.args.args) != 1:
+    if not isinstance(tree, ast.FunctionDef) or not tree.args.args:
+        return False, "not a function with a positional parameter"
+    if depth == 0 and len(tree.args.args) != 1:
         return False, "not a one-parameter function"
     m = tree.args.args[0].arg
     body = [s for s in tree.body if not (isinstance(s, ast.Expr) and isinstance(s.value, ast.Constant))]
-    if len(body) != 1 or not isinstance(body[0], ast.Return) or not isinstance(body[0].value, ast.Call):
-        return False, "body is not a single return of a call"
-    call = body[0].value
-    if ast.unparse(call.func).split(".")[-1] not in {"OrderedDict", "dict"} or len(call.args) != 1 or not isinstance(call.args[0], ast.ListComp):
+    if not body or not isinstance(body[-1], ast.Return) or not isinstance(body[-1].value, ast.Call):
+        return False, "body does not end in the return of a call"
+    call = body[-1].value
+    callee = ast.unparse(call.func)
+    if len(body) == 1 and depth < 2 and call.args and ast.unparse(call.args[0]) == m and not any(isinstance(a, ast.Starred) for a in call.args):
+        target = getattr(func, "__globals__", {}).get(callee)
+        if inspect.isfunction(target) and (target.__module__ or "").startswith("ampform"):
+            ok, detail = _is_sorted_rebuild(target, depth + 1)
+            return ok, f"{callee}: {detail}"
+    if callee.split(".")[-1] not in {"OrderedDict", "dict"} or len(call.args) != 1 or not isinstance(call.args[0], ast.ListComp):
         return False, "does not build an (ordered) dict from a list comprehension"
     comp = call.args[0]
     if len(comp.generators) != 1 or comp.generators[0].ifs:
@@ -288,10 +298,57 @@ def _is_sorted_rebuild(func) -> tuple[bool, str]:
     k = ast.unparse(g.target)
     if ast.unparse(comp.elt) not in {f"({k}, {m}[{k}])"}:
         return False, f"element is {ast.unparse(comp.elt)}, expected ({k}, {m}[{k}])"
+
+    def is_sorted_m(it) -> bool:
+        return (isinstance(it, ast.Call) and ast.unparse(it.func) == "sorted" and len(it.args) == 1 and ast.unparse(it.args[0]) == m
+                and all(kw.arg == "key" for kw in it.keywords))
+
     it = g.iter
-    if not (isinstance(it, ast.Call) and ast.unparse(it.func) == "sorted" and len(it.args) == 1 and ast.unparse(it.args[0]) == m
-            and all(kw.arg == "key" for kw in it.keywords)):
+    if is_sorted_m(it):
+        keys_name = None
+    elif isinstance(it, ast.Name):
+        keys_name = it.id
+    else:
         return False, f"iterates over {ast.unparse(it)}, expected sorted({m}, key=...)"
+    # the statements before the return: only (nested) if/else whose leaves bind KEYS to sorted(m, key=...); nothing rebinds or mutates m
+    bound = []
+
+    def leaves(stmts) -> str | None:
+        for st_ in stmts:
+            if isinstance(st_, ast.Expr) and isinstance(st_.value, ast.Constant):
+                continue
+            if isinstance(st_, ast.If):
+                if any(isinstance(x, (ast.Call, ast.NamedExpr)) for x in ast.walk(st_.test)):
+                    return f"branch condition {ast.unparse(st_.test)} calls something"
+                for part in (st_.body, st_.orelse):
+                    r = leaves(part)
+                    if r:
+                        return r
+                continue
+            if isinstance(st_, (ast.Assign, ast.AnnAssign)):
+                targets = st_.targets if isinstance(st_, ast.Assign) else [st_.target]
+                if len(targets) == 1 and isinstance(targets[0], ast.Name) and targets[0].id == keys_name and st_.value is not None and is_sorted_m(st_.value):
+                    bound.append(ast.unparse(st_.value))
+                    continue
+            return f"statement `{ast.unparse(st_)[:80]}` is not a binding of the key order to sorted({m}, key=...)"
+        return None
+
+    r = leaves(body[:-1])
+    if r:
+        return False, r
+    if keys_name is not None:
+        # every path must bind KEYS: an if without else (or an empty branch) could leave it unbound/stale -> require if/else pairs or a plain binding
+        def binds(stmts) -> bool:
+            for st_ in stmts:
+                if isinstance(st_, (ast.Assign, ast.AnnAssign)):
+                    return True
+                if isinstance(st_, ast.If) and st_.orelse and binds(st_.body) and binds(st_.orelse):
+                    return True
+            return False
+
+        if not binds(body[:-1]):
+            return False, f"{keys_name} is not bound on every path"
+        return True, " | ".join(bound)
     return True, ast.unparse(it)
 
 
